@@ -267,7 +267,7 @@ def kkt(info):
     vcs = []
     for k, (text, term) in DEFS.items():
         nm = f'kkt_optimality_test{k}'
-        fn = astload.find_definition(STATE_TU, 'solver_state_t::' + nm, nm)
+        fn = astload.find_definition(STATE_TU, 'solver_state_t::kkt_optimality_test', nm)      # one clang run for the six functions
         wp = state_wp(nm)
         wp.bind_params(fn)
         rv = run1(wp, fn, path)
@@ -279,7 +279,7 @@ def kkt(info):
                           'the documented (infinity) norm of the documented vector, any number of constraints', src))
         vcs += red.lemmas
     nm = 'kkt_optimality_test'
-    fn = astload.find_definition(STATE_TU, 'solver_state_t::' + nm, nm, select=lambda d: d.get('name') == nm)
+    fn = astload.find_definition(STATE_TU, 'solver_state_t::kkt_optimality_test', nm)
     wp = state_wp(nm)
     seen = []
 
